@@ -35,6 +35,7 @@ import (
 	"reflect"
 	"strings"
 	"testing"
+	"time"
 	"unsafe"
 )
 
@@ -162,7 +163,7 @@ func verifEnum(t reflect.Type, alpha []byte, maxLen int, depth int) []reflect.Va
 					f := c.Field(i)
 					reflect.NewAt(f.Type(), unsafe.Pointer(f.UnsafeAddr())).Elem().Set(v)
 					next = append(next, c)
-					if len(next) > 20000 {
+					if len(next) > 3000 {
 						break
 					}
 				}
@@ -316,7 +317,11 @@ func TestVerifReplay(t *testing.T) {
 	}
 	idx := make([]int, len(doms))
 	tried := 0
+	deadline := time.Now().Add(25 * time.Second)
 	for {
+		if tried%1024 == 0 && time.Now().After(deadline) {
+			break
+		}
 		in := make([]reflect.Value, len(doms))
 		for i := range doms {
 			in[i] = verifDeepCopy(doms[i][idx[i]])
